@@ -40,7 +40,7 @@ GENERIC_THEOREMS = [
     'dirk_stage_equations', 'dirk_stage_equations_linear', 'dirk_update_equation',
     'stiffly_accurate_shortcut', 'dirk_embedded_equation', 'const_rhs_exact',
     'rosenbrock_stage_equations', 'rosenbrock_update', 'rosenbrock_consistency',
-    'constant_driver', 'constant_driver_prefix', 'adaptive_driver',
+    'constant_driver', 'constant_driver_prefix', 'adaptive_driver', 'adaptive_driver_nontermination_witness',
 ]
 THEOREMS = ['Pyiga.Props.C12.' + t for t in TAB_THEOREMS + GENERIC_THEOREMS]
 MODULES = ['Pyiga.Model.ODE', 'Pyiga.Model.RatVec', 'Pyiga.Gen.Tableaux', 'Pyiga.Proofs.ODE', 'Pyiga.Props.C12']
